@@ -546,8 +546,9 @@ func finish(c *Ctx, def *PropDef, m *Part, wall time.Duration) int {
 		cov["transitions"] = m.Transitions
 		cov["traces_validated_against_impl"] = m.Traces
 	}
-	if cov["samples"] == nil {
-		cov["samples"] = []any{}
+	if len(m.Samples) == 0 {
+		fmt.Println("HARNESS-ERROR: the check recorded no sample case")
+		return 2
 	}
 	seed, _ := strconv.Atoi(os.Getenv("VERIF_SEED"))
 	ev := map[string]any{
